@@ -51,8 +51,9 @@ var sqlOf = map[string]string{
 var alphabet = []string{"BEGIN", "START", "COMMIT", "ROLLBACK", "AC0", "AC1", "SP", "RBTO", "R0", "W0", "FU", "RS", "WS", "W1", "B:W0", "B:WS"}
 
 type config struct {
-	User string `json:"user"`
-	KS   bool   `json:"keep_session"`
+	User  string `json:"user"`
+	KS    bool   `json:"keep_session"`
+	Depth int    `json:"depth,omitempty"` // 0: the tier's default bound
 }
 
 func (c config) String() string { return fmt.Sprintf("user=%s,ks=%v", c.User, c.KS) }
@@ -188,8 +189,10 @@ func (m *monitor) step(op string, resp sessrig.Resp, entries []sessrig.Entry, he
 				if !inTx {
 					continue
 				}
-				if e.Role != "master" {
-					return mk("replica_in_tx", "%s on a replica connection (%s) inside a transaction", e.Op, e.Pool)
+				if !sessrig.IsMasterRole(e.Role) {
+					v := mk("replica_in_tx", "%s on a %s connection (%s) inside a transaction", e.Op, e.Role, e.Pool)
+					v.feat["role"] = e.Role
+					return v
 				}
 				if l, ok := m.epoch[e.Slice]; ok && l != e.Lease {
 					return mk("second_connection", "%s for %s ran on another connection than the one the transaction already uses for that slice (%s)", e.Op, e.Slice, e.Pool)
@@ -338,7 +341,7 @@ func replay(cfg config, hist []string, wantTrace bool) outcome {
 			if e.Op == "get" && e.Res == "ok" {
 				if e.Actor == "A" {
 					everA[e.Conn] = true
-					if e.Role == "slave" && !m.open() {
+					if !sessrig.IsMasterRole(e.Role) && !m.open() {
 						out.facts = append(out.facts, "replica_read_outside_tx")
 					}
 				} else if everA[e.Conn] {
@@ -483,6 +486,14 @@ func main() {
 	cfgs := []config{
 		{User: sessrig.UserRWS, KS: false}, {User: sessrig.UserRW, KS: false},
 		{User: sessrig.UserRWS, KS: true}, {User: sessrig.UserRW, KS: true},
+		// user types: the slice chooses the pool group (statistic slaves / monitor pools) by the
+		// user's type, independently of the master/slave decision of the statement
+		{User: sessrig.UserStat, KS: false, Depth: r.Pick(5, 16)}, {User: sessrig.UserMon, KS: false, Depth: r.Pick(5, 16)},
+		{User: sessrig.UserStat, KS: true, Depth: r.Pick(6, 16)}, {User: sessrig.UserMon, KS: true, Depth: r.Pick(6, 16)},
+	}
+	if r.Thorough() {
+		// the admin (pass-through) type uses the normal users' pool groups
+		cfgs = append(cfgs, config{User: sessrig.UserAdmin, KS: false}, config{User: sessrig.UserAdmin, KS: true})
 	}
 	var states, transitions int64
 	perCfg := map[string]interface{}{}
@@ -493,7 +504,12 @@ func main() {
 	for _, cfg := range cfgs {
 		cfg := cfg
 		spec := xstate.Spec[string]{
-			MaxDepth: depth,
+			MaxDepth: func() int {
+				if cfg.Depth > 0 {
+					return cfg.Depth
+				}
+				return depth
+			}(),
 			Workers:  16,
 			Stop:     r.TimeUp,
 			Enabled:  func(h []string) []string { return alphabet },
